@@ -35,6 +35,8 @@ type scenario struct {
 	Qps   int32  `json:"qps"`
 	Burst int32  `json:"burst"`
 	Steps []step `json:"steps"`
+	// Init: what the schema "s" is BEFORE it becomes the token bucket under test: "" (it does not exist), "mif", "exempt"
+	Init string `json:"init,omitempty"`
 }
 type event struct {
 	T     int64 `json:"t"`
@@ -65,6 +67,18 @@ func runScenario(t *testing.T, sc scenario) []run {
 		start := time.Now()
 		q, b := sc.Qps, sc.Burst
 		other := false
+		otherKind := func(kind string) proxyv1alpha1.FlowControl {
+			sch := proxyv1alpha1.FlowControlSchema{Name: "s"}
+			if kind == "exempt" {
+				sch.Exempt = &proxyv1alpha1.ExemptFlowControlSchema{}
+			} else {
+				sch.MaxRequestsInflight = &proxyv1alpha1.MaxRequestsInflightFlowControlSchema{Max: 1}
+			}
+			return proxyv1alpha1.FlowControl{Schemas: []proxyv1alpha1.FlowControlSchema{sch}}
+		}
+		if sc.Init != "" {
+			lim.Sync(otherKind(sc.Init))
+		}
 		lim.Sync(spec(q, b, other))
 		cur := run{Qps: q, Burst: b}
 		for _, s := range sc.Steps {
@@ -85,8 +99,11 @@ func runScenario(t *testing.T, sc scenario) []run {
 						ready.Done()
 						for atomic.LoadInt32(&gate) == 0 { // released together
 						}
-						if lim.GetOrDefault("s").TryAcquire() {
+						// as the dispatcher does: the request is admitted, served (here: at once) and gives its slot back - a no-op for a
+						// token bucket; if the schema were enforced by anything else than a token bucket the release would show
+						if fc := lim.GetOrDefault("s"); fc.TryAcquire() {
 							res[i] = 1
+							fc.Release()
 						}
 					}()
 				}
@@ -119,11 +136,16 @@ func runScenario(t *testing.T, sc scenario) []run {
 			case "recreate":
 				// the schema is deleted and created again (or its type changed and changed back): a NEW bucket, a new run
 				runs = append(runs, cur)
-				if s.N%2 == 0 {
+				switch s.N % 4 {
+				case 0:
 					lim.Sync(proxyv1alpha1.FlowControl{})
-				} else {
-					lim.Sync(proxyv1alpha1.FlowControl{Schemas: []proxyv1alpha1.FlowControlSchema{{Name: "s",
-						FlowControlSchemaConfiguration: proxyv1alpha1.FlowControlSchemaConfiguration{MaxRequestsInflight: &proxyv1alpha1.MaxRequestsInflightFlowControlSchema{Max: 1}}}}})
+				case 1:
+					lim.Sync(otherKind("mif"))
+				case 2:
+					lim.Sync(otherKind("exempt"))
+				default: // gone, back as another type, then the token bucket
+					lim.Sync(proxyv1alpha1.FlowControl{})
+					lim.Sync(otherKind("mif"))
 				}
 				lim.Sync(spec(q, b, other))
 				cur = run{Qps: q, Burst: b}
